@@ -22,8 +22,8 @@ HARNESSES += [
            'dom/impl/DOMNodeImpl.cpp', 'dom/impl/DOMChildNode.cpp', 'dom/impl/DOMNodeListImpl.cpp', 'dom/impl/DOMStringPool.cpp', 'util/XMLString.cpp'],
       cuts_everywhere=['_ZN11xercesc_4_015DOMDocumentImpl15getPooledStringEPKDs', '_ZnwmPN11xercesc_4_015DOMDocumentImplE'],
       cuts=['_ZN11xercesc_4_09DOMBuffer14expandCapacityEmb', '_ZN11xercesc_4_020DOMCharacterDataImplC[12]EPNS_11DOMDocumentEPKDs', '_ZN11xercesc_4_020DOMCharacterDataImplD[12]Ev',
-            '_ZN11xercesc_4_014DOMElementImpl22setupDefaultAttributesEv'],
-      defs={'all': {'OP': op, 'P': par}}, unwind={'quick': 6, 'thorough': 6}, timeout={'quick': 1500, 'thorough': 3000}, mem_gb=24, cbmc_flags=['--sat-solver', 'cadical'])
+            '_ZN11xercesc_4_014DOMElementImpl22setupDefaultAttributesEv', '_ZNK11xercesc_4_015DOMDocumentImpl*', '_ZN11xercesc_4_015DOMDocumentImpl[!7]*', '_ZN11xercesc_4_015DOMDocumentImpl7[!i]*', '_ZNK11xercesc_4_011DOMNodeImpl20callUserDataHandlersENS_18DOMUserDataHandler16DOMOperationTypeEPKNS_7DOMNodeEPS3_'],
+      defs={'all': dict({'OP': op, 'P': par}, **({'CFIX': int(__import__('os').environ['VX_CFIX'])} if __import__('os').environ.get('VX_CFIX') else {}), **({'NOOP': 1} if __import__('os').environ.get('VX_NOOP') else {}), **({'SMALL': 1} if __import__('os').environ.get('VX_SMALL') else {}))}, unwind={'quick': 6, 'thorough': 6}, timeout={'quick': 1500, 'thorough': 3000}, mem_gb=24, cbmc_flags=['--sat-solver', 'cadical'])
  for par in (0, 3, 2) for op in range(3 if __import__('os').environ.get('VX_C13_TREE') else 0)      # gated until the harness reaches a verdict
 ]
 LEVEL_TEXT = ('Bounded model checking of the real DOM character-data code through a real Text node object: for ALL contents, offsets, counts (64-bit) and inserted strings within the bound the result equals the DOM Core '
